@@ -4,18 +4,18 @@
 
 namespace ratio
 {
-    var_flaw::var_flaw(solver &slv, std::vector<resolver *> causes, var_item &v_itm) : flaw(slv, std::move(causes), true), v_itm(v_itm) {}
+    var_flaw::var_flaw(solver &slv, std::vector<resolver *> causes, var_item &v_itm) : flaw(slv, std::move(causes), true), ev(v_itm.ev) {}
 
     std::string var_flaw::get_data() const noexcept { return "{\"type\":\"enum\", \"phi\":\"" + to_string(get_phi()) + "\", \"position\":" + std::to_string(get_position()) + "}"; }
 
     void var_flaw::compute_resolvers()
     {
-        std::unordered_set<smt::var_value *> vals = get_solver().get_ov_theory().value(v_itm.ev);
+        std::unordered_set<smt::var_value *> vals = get_solver().get_ov_theory().value(ev);
         for (const auto &v : vals)
             add_resolver(*new choose_value(smt::rational(1, static_cast<smt::I>(vals.size())), *this, *v));
     }
 
-    var_flaw::choose_value::choose_value(smt::rational cst, var_flaw &enm_flaw, smt::var_value &val) : resolver(enm_flaw.get_solver().get_ov_theory().allows(enm_flaw.v_itm.ev, val), cst, enm_flaw), v(enm_flaw.v_itm.ev), val(val) {}
+    var_flaw::choose_value::choose_value(smt::rational cst, var_flaw &enm_flaw, smt::var_value &val) : resolver(enm_flaw.get_solver().get_ov_theory().allows(enm_flaw.ev, val), cst, enm_flaw), v(enm_flaw.ev), val(val) {}
 
     std::string var_flaw::choose_value::get_data() const noexcept
     {
@@ -29,7 +29,7 @@ namespace ratio
 
     void var_flaw::choose_value::apply()
     { // activating this resolver assigns a value to the variable..
-        if (!get_solver().get_sat_core().new_clause({!get_rho(), get_solver().get_ov_theory().allows(static_cast<var_flaw &>(get_effect()).v_itm.ev, val)}))
+        if (!get_solver().get_sat_core().new_clause({!get_rho(), get_solver().get_ov_theory().allows(static_cast<var_flaw &>(get_effect()).ev, val)}))
             throw unsolvable_exception();
     }
 } // namespace ratio
